@@ -150,6 +150,24 @@ Proof. exact typiclust_unbound_refuted. Qed.
 Print Assumptions C01_typiclust_unbound_refuted.
 
 
+(* BatchBALD (greedy_selection=False), as written: the internal loop of batch_bald alone yields a valid batch for every score
+   oracle; query() then picks a second time with other noise - the recorded finding - which agrees with the first pick
+   exactly when the row has a unique maximiser (C02_batchbald_step_agrees) *)
+Theorem C01_batchbald_internal_loop_valid :
+  forall (m : nat) (score : list nat -> list val) (k : nat) (noiseA : list Z),
+  (forall prev, length (score prev) = m /\ Forall nonnan (score prev)) -> k <= m -> noise_ok m noiseA ->
+  psteps_ok SelMax (seq 0 m) [] m (bald_internal m score k noiseA) = true /\ length (bald_internal m score k noiseA) = k.
+Proof. exact bald_internal_accepted. Qed.
+Print Assumptions C01_batchbald_internal_loop_valid.
+
+Theorem C01_batchbald_two_tiebreaks_duplicate_refuted :
+  let score := fun _ : list nat => [Some 5%Z; Some 5%Z] in
+  let t := bald_trace 2 2 [0; 1] score 2 [1; 2]%Z [[2; 1]; [1; 1]]%Z in
+  map fst (bald_internal 2 score 2 [1; 2]%Z) = [1; 0] /\ map fst t = [0; 0] /\
+  psteps_ok SelMax [0; 1] [] 2 t = false.
+Proof. exact bald_two_tiebreaks_duplicate_refuted. Qed.
+Print Assumptions C01_batchbald_two_tiebreaks_duplicate_refuted.
+
 (* sampling loops (Badge, Falcun): earlier picks get weight 0, a fallback to weight 1 for everything
    that is not an earlier pick when nothing is left; for EVERY raw weight oracle and every sequence of
    draws that respects numpy's contract for choice (positive probability) the batch is duplicate-free
